@@ -88,7 +88,13 @@ impl RevocationBitmap {
 
   /// Construct a `RevocationBitmap` from a data url embedded in `service_endpoint`.
   pub(crate) fn try_from_endpoint(service_endpoint: &ServiceEndpoint) -> Result<Self, RevocationError> {
-    if let ServiceEndpoint::One(url) = service_endpoint {
+    // A set of exactly one URL is the same endpoint in the other JSON shape (`"serviceEndpoint": ["data:..."]`).
+    let url: Option<&Url> = match service_endpoint {
+      ServiceEndpoint::One(url) => Some(url),
+      ServiceEndpoint::Set(set) if set.len() == 1 => set.head(),
+      _ => None,
+    };
+    if let Some(url) = url {
       let Some(encoded_bitmap) = url.as_str().strip_prefix(DATA_URL_PATTERN) else {
         return Err(RevocationError::InvalidService(
           "invalid url - expected an `application/octet-stream;base64` data url",
